@@ -152,6 +152,31 @@ CHECKS['C17'] = ('model_checking',
          'Snapshots see ndarray bytes, lists/tuples and the instance __dict__ of library objects; one value letter per kind. Random constructors are only '
          'checked for not modifying anything.',
          'DESIGN.md 3/C17')
+CHECKS['C16'] = ('exploration',
+         'exhaustive product callable x call form x subset of symbolic arguments x substitution point, symbolic result substituted and compared with the numeric call',
+         'All 48 callables tagged SymPy-supported (found by reflection) plus the sym wrappers and the pose operators *, inv, pose x point: 309 call '
+         'forms (thorough 368) x every non-empty subset of argument slots made symbolic (declared family above 4 slots in the quick tier) x the full '
+         'product of angle and magnitude letters; each entry of the symbolic result is evaluated at 30 digits after substitution and compared to 1e-12, '
+         'and entries that are structurally 0 or 1 in the numeric result must be exact numbers.',
+         'Numeric call forms that raise are skipped (listed in the evidence). The structural mask is derived from the numeric result.',
+         'DESIGN.md 3/C16')
+CHECKS['C18'] = ('exploration',
+         'exhaustive product axis direction x length x axis point x theta x unit x entry point against the reference screw motion',
+         'Revolute and prismatic unit twists in 3-D and 2-D over all axis directions (lengths 1e-3..1e6), axis points up to 1e3, theta over multiples of '
+         'pi/2 and generic values in [-2pi, 2pi], scalar and vector theta, both units: exp(theta S) against [R(theta, a), (I-R) q; 0 1] (50-digit where '
+         'conditioning needs it), fixed points of the axis, pitch, pole, line of action (incidence computed by the harness), theta(), isprismatic / '
+         'isrevolute, se(n) matrix form, inverse and scalar multiples.',
+         'Bounded to the enumerated letters; tolerance 1e-9 * max(1, |q|, |lambda|) (the statement names none).',
+         'DESIGN.md 3/C18')
+CHECKS['C19'] = ('exploration',
+         'exhaustive product of line constructions x relative positions with ground truth from the defining data',
+         'Lines from two points, point + direction and two planes over points / directions / magnitudes 1e-3..1e3; single-line family (constraint, pp, '
+         'ppd, contains, point, closest, SE3 * line over the SE(3) generator set, intersect_plane) and pair family (skew, intersecting, parallel, '
+         'coincident second lines built in known relative position; ==, !=, |, isparallel, ^, distance, commonperp in both operand orders) and planes '
+         '(PN, P3, contains); every value is compared with elementary geometry of the defining data to 1e-9 relative to the data magnitude.',
+         'Predicates are judged only where the relation is exact by construction or separated by >= 1e-3 relative. Multi-valued Plucker objects and '
+         'intersect_volume are outside the statement.',
+         'DESIGN.md 3/C19')
 PENDING = {}
 
 def main():
